@@ -659,15 +659,21 @@ class xor_c:
     params = {'b1': 'bytes', 'b2': 'bytes'}
     modifies = ()
     pure = ('xor_f', 'bytes')
-    trusted = True     # byte-wise loop: bounded stand-in (props/bounded.py), see DESIGN 2.10
     raises = ()
+
+    def inv0(b1, b2, b3, i):
+        return [('len', len(b3) == i), ('bytes', forall(0, i, lambda j: b3[j] == b1[j] ^ b2[j]))]
+
+    def var0(b1, i):
+        return len(b1) - i
+    loops = {0: {'inv': inv0, 'variant': var0}}
 
     def requires(b1, b2):
         return [('equal-length', len(b1) == len(b2))]
 
     def ensures(old, b1, b2, result, raised):
         return [('len', len(result) == len(b1)),
-                ('bytes', forall(0, len(b1), lambda j: result[j] == b1[j] ^ b2[j]))]
+                ('bytes', lambda: forall(0, len(b1), lambda j: result[j] == b1[j] ^ b2[j]))]
 
 
 @contract('functions.or_bytes')
@@ -675,15 +681,21 @@ class or_bytes_c:
     params = {'b1': 'bytes', 'b2': 'bytes'}
     modifies = ()
     pure = ('or_f', 'bytes')
-    trusted = True
     raises = ()
+
+    def inv0(b1, b2, b3, i):
+        return [('len', len(b3) == i), ('bytes', forall(0, i, lambda j: b3[j] == b1[j] | b2[j]))]
+
+    def var0(b1, i):
+        return len(b1) - i
+    loops = {0: {'inv': inv0, 'variant': var0}}
 
     def requires(b1, b2):
         return [('equal-length', len(b1) == len(b2))]
 
     def ensures(old, b1, b2, result, raised):
         return [('len', len(result) == len(b1)),
-                ('bytes', forall(0, len(b1), lambda j: result[j] == b1[j] | b2[j]))]
+                ('bytes', lambda: forall(0, len(b1), lambda j: result[j] == b1[j] | b2[j]))]
 
 
 @contract('functions.and_bytes')
@@ -691,15 +703,21 @@ class and_bytes_c:
     params = {'b1': 'bytes', 'b2': 'bytes'}
     modifies = ()
     pure = ('and_f', 'bytes')
-    trusted = True
     raises = ()
+
+    def inv0(b1, b2, b3, i):
+        return [('len', len(b3) == i), ('bytes', forall(0, i, lambda j: b3[j] == b1[j] & b2[j]))]
+
+    def var0(b1, i):
+        return len(b1) - i
+    loops = {0: {'inv': inv0, 'variant': var0}}
 
     def requires(b1, b2):
         return [('equal-length', len(b1) == len(b2))]
 
     def ensures(old, b1, b2, result, raised):
         return [('len', len(result) == len(b1)),
-                ('bytes', forall(0, len(b1), lambda j: result[j] == b1[j] & b2[j]))]
+                ('bytes', lambda: forall(0, len(b1), lambda j: result[j] == b1[j] & b2[j]))]
 
 
 @contract('functions.OP_EQUAL')
